@@ -29,6 +29,19 @@ def run(ctx, only_type_id=False):
             d = [tr for (e, tr, g) in Sw.bool_facts_at(b) if e == "discr(*p1)"]
             if d and vs.get(d[0][1]) not in wtab and args[1].startswith("c:"):
                 wtab[vs[d[0][1]]] = int(args[1][2:])
+    if len(wtab) < len(vs):
+        # the tag written once up front from a `type_number()` table (inlined), or arms merged: read it per variant on the body specialised to that variant
+        from ..spec import specialise, fold
+        sw0 = tables.first_switch(fw)
+        dexpr = Sw.val(fw.blocks[sw0]["term"]["discr"]) if sw0 is not None else None
+        if dexpr and re.fullmatch(r"discr\(\**p1\)", dexpr):
+            for v_, name_ in vs.items():
+                g_ = specialise(prog, fw, dexpr, v_)
+                Sg_ = Sym(prog, g_)
+                domg_ = cfg.dominators(g_)
+                w32 = sorted([(len(domg_[b_]), fold(Sg_.val(t_["args"][1]))) for b_, t_ in g_.calls() if (t_.get("callee") or "").endswith("write_u32") and b_ in domg_])
+                if w32 and re.fullmatch(r"c:\d+", w32[0][1]):
+                    wtab[name_] = int(w32[0][1][2:])
     rtab = {}
     rarm = {}
     domr = cfg.dominators(fr)
@@ -80,7 +93,8 @@ def run(ctx, only_type_id=False):
               "LpStr length word = encoded length + terminator", "", "LpStr length word is %s" % [c[2][1] for c in lenw], fw.loc(), fn=fw.name)
     rng = [c for c in lp if "Range::Range{c:0," in " ".join(c[2])]
     padexpr = rng[0][2][0] if rng else ""
-    ctx.check("Add! c:3).0 Shr c:2) Shl c:2)" in padexpr and "Sub!" in padexpr, R, "LpStr padding to a multiple of 4", "",
+    # round up to a multiple of four: ((len + 3) >> 2) << 2, or (len + 3) & !3
+    ctx.check(("Add! c:3).0 Shr c:2) Shl c:2)" in padexpr or "Add! c:3).0 BitAnd (Not c:3))" in padexpr or "Add! c:3).0 BitAnd c:4294967292)" in padexpr) and "Sub!" in padexpr, R, "LpStr padding to a multiple of 4", "",
               "LpStr padding count is not ((len+3)>>2<<2) - len: %s" % padexpr[:160], fw.loc(), fn=fw.name)
 
     R = "MEAS-1"
